@@ -587,3 +587,26 @@ func RouteIndex(rt *rux.Route) int {
 	}
 	return i
 }
+
+// RejectedOptions tries, on a router that already has routes, to switch on every option that is off: WithOptions
+// refuses that (options come before routes) and the application recovers.  The router goes on as configured.
+func RejectedOptions(r *rux.Router, o Options) {
+	if !o.Strict {
+		TryCall(func() { r.WithOptions(rux.StrictLastSlash) })
+	}
+	if !o.NotAllowed {
+		TryCall(func() { r.WithOptions(rux.HandleMethodNotAllowed) })
+	}
+	if !o.Fallback {
+		TryCall(func() { r.WithOptions(rux.HandleFallbackRoute) })
+	}
+	if !o.EncodedPath {
+		TryCall(func() { r.WithOptions(rux.UseEncodedPath) })
+	}
+	if !o.Intercept {
+		TryCall(func() { r.WithOptions(rux.InterceptAll("/zz-rejected-intercept")) })
+	}
+	if !o.Caching {
+		TryCall(func() { r.WithOptions(rux.EnableCaching) })
+	}
+}
